@@ -306,6 +306,12 @@ func (s *Solver) Check(extra *Term, wantModel bool) (Result, Model) {
 	s.send(sb.String())
 	verdict := func() Result {
 		res := Unknown
+		// a solver that ignores its time limit is killed: the path ends inconclusive ("solver died")
+		if s.TimeoutMS > 0 && s.cmd != nil {
+			proc := s.cmd.Process
+			wd := time.AfterFunc(time.Duration(10*s.TimeoutMS)*time.Millisecond+30*time.Second, func() { proc.Kill() })
+			defer wd.Stop()
+		}
 		for {
 			line := s.readLine()
 			if s.cmd == nil {
